@@ -692,6 +692,8 @@ class C08(Prop):
                     problems.append("%s entry point returns %s" % (k, kv.get(k)))
             if kv.get("same") != "1":
                 problems.append("parsed header does not format back to its text")
+            if kv.get("spec") == "0":
+                problems.append("a format spec ({:.7}, {:5}, {:+}, {:05}, {:>120} ...) leaks into the fields of the line instead of being ignored or applied to the line as a whole")
             text = C.unhex(kv.get("text", "-"))
             if len(text) > 107 or V.oracle_v1(text) is None or V.oracle_v1(text)[0] != text:
                 problems.append("formatted text is not a well-formed line of at most 107 bytes")
